@@ -6,16 +6,16 @@ C02 — the reader result is independent of the consumption pattern (column read
 reader).  Property statements only; definitions and helper lemmas live in Spec/, Impl/, Proofs/.
 
 Vocabulary (all in `Carquet.Proofs.Cursor`):
-  `ChunkOk c`        the chunk of a valid file: every page loads and is well formed (≥ 1 row, one
+  `ChunkOk c`        the chunk of a valid file: every page loads and is well formed (one
                      repetition level per row, as many dense values as rows at the maximum
-                     definition level), `num_values` = number of rows;
+                     definition level; a page may have NO rows, F63), `num_values` = number of rows;
   `chunkRows c`      the rows of the chunk (concatenation of the pages' rows), the Spec's input;
   `encodeOut`        a Spec output seen through the C API (levels per row, values dense);
   `OpOk op`          read sizes below 2^31 (the `(int32_t)max_values` cast);
   `FileOk f`, `ProjOk f proj`, `ColFits col bs`   valid file, servable projection, column fits the
                      1 GiB allocation cap for batches of `bs` rows;
   `ColData.content`  how a consumer decodes a batch column (bit set = null, values dense).
-All theorems are about the repaired code (`Fixes.all` = F4 + F5 + F28); the pinned behaviour is
+All theorems are about the repaired code (`Fixes.all` = F4 + F5 + F28 + F63); the pinned behaviour is
 refuted by the `C02_regression_*` theorems below.
 -/
 namespace Carquet.Properties.C02
@@ -48,8 +48,25 @@ example : ChunkOk (⟨[some ⟨[1, 0, 1], [0, 0, 0], [7, 9]⟩, some ⟨[0, 1], 
   intro p hp
   simp only [List.mem_cons, List.mem_nil_iff, or_false] at hp
   rcases hp with rfl | rfl
-  · exact ⟨_, rfl, by decide, by decide, by decide, by decide⟩
-  · exact ⟨_, rfl, by decide, by decide, by decide, by decide⟩
+  · exact ⟨_, rfl, by decide, by decide, by decide⟩
+  · exact ⟨_, rfl, by decide, by decide, by decide⟩
+
+/-- pages without rows (F63) at the head, in the middle (two in a row) and at the end of a chunk
+satisfy the hypotheses … -/
+example : ChunkOk (⟨[some ⟨[], [], []⟩, some ⟨[1, 0, 1], [0, 0, 0], [7, 9]⟩, some ⟨[], [], []⟩, some ⟨[], [], []⟩,
+    some ⟨[0, 1], [0, 0], [4]⟩, some ⟨[], [], []⟩], 5, 1, false, true⟩ : Chunk Nat) := by
+  refine ⟨?_, by decide⟩
+  intro p hp
+  simp only [List.mem_cons, List.mem_nil_iff, or_false] at hp
+  rcases hp with rfl | rfl | rfl | rfl | rfl | rfl <;> exact ⟨_, rfl, by decide, by decide, by decide⟩
+
+/-- … and the reader steps over them: one row at a time, then `remaining`, `has_next` -/
+example : (run Fixes.all (⟨[some ⟨[], [], []⟩, some ⟨[1, 0, 1], [0, 0, 0], [7, 9]⟩, some ⟨[], [], []⟩, some ⟨[], [], []⟩,
+    some ⟨[0, 1], [0, 0], [4]⟩, some ⟨[], [], []⟩], 5, 1, false, true⟩ : Chunk Nat)
+      [.read 1, .read 1, .read 1, .read 1, .remaining, .read 4, .hasNext]).2 =
+    [.read 1 [some 1] [some 0] [some 7], .read 1 [some 0] [some 0] [], .read 1 [some 1] [some 0] [some 9],
+     .read 1 [some 0] [some 0] [], .remaining 1, .read 1 [some 1] [some 0] [some 4], .hasNext false] := by
+  decide
 
 /-- The dense encoding loses nothing: well-formed rows with the same levels and the same dense values
 are the same rows (so equal outputs mean equal null positions, values and counts). -/
@@ -221,7 +238,7 @@ theorem exFile_ok : FileOk exFile := by
       refine ⟨?_, by decide⟩
       intro p hp
       simp only [List.mem_cons, List.mem_nil_iff, or_false] at hp
-      rcases hp with rfl | rfl <;> exact ⟨_, rfl, by decide, by decide, by decide, by decide⟩
+      rcases hp with rfl | rfl <;> exact ⟨_, rfl, by decide, by decide, by decide⟩
     | 1 =>
       simp only [exFile, List.getElem?_cons_succ, List.getElem?_cons_zero, Option.some.injEq] at hcol hcd
       subst hcol; subst hcd
@@ -229,7 +246,7 @@ theorem exFile_ok : FileOk exFile := by
       intro p hp
       simp only [List.mem_cons, List.mem_nil_iff, or_false] at hp
       rcases hp with rfl
-      exact ⟨_, rfl, by decide, by decide, by decide, by decide⟩
+      exact ⟨_, rfl, by decide, by decide, by decide⟩
     | n + 2 => simp [exFile] at hcol
   · intro rg hrg
     simp only [exFile, List.mem_singleton] at hrg
@@ -302,6 +319,28 @@ theorem C02_regression_F28 :
         4, 0, false, true⟩ : Chunk Nat)) 3 true true).1.freed := by
   decide
 
+/-- **F63.**  Pages of 3, 0 and 3 rows.  The code before the repair loads the empty page, copies
+nothing and `carquet_column_read_batch` leaves its loop at `values_read == 0`: `read 6` returns 3
+rows, and reading row by row the fourth call returns 0 although `has_next` is true and 3 rows are
+outstanding — a caller that takes 0 for the end of the data loses the rest of the chunk.  The index
+cursor (and the repaired code) deliver all 6 rows. -/
+theorem C02_regression_F63 :
+    (run Fixes.preF63 (⟨[some ⟨[0, 0, 0], [0, 0, 0], [1, 2, 3]⟩, some ⟨[], [], []⟩, some ⟨[0, 0, 0], [0, 0, 0], [4, 5, 6]⟩],
+        6, 0, false, false⟩ : Chunk Nat) [.read 6, .hasNext, .remaining]).2 =
+      [.read 3 [some 0, some 0, some 0] [some 0, some 0, some 0] [some 1, some 2, some 3], .hasNext true, .remaining 3] ∧
+    (run Fixes.preF63 (⟨[some ⟨[0, 0, 0], [0, 0, 0], [1, 2, 3]⟩, some ⟨[], [], []⟩, some ⟨[0, 0, 0], [0, 0, 0], [4, 5, 6]⟩],
+        6, 0, false, false⟩ : Chunk Nat) [.read 1, .read 1, .read 1, .read 1, .hasNext]).2.drop 3 =
+      [.read 0 [] [] [], .hasNext true] ∧
+    (run Fixes.all (⟨[some ⟨[0, 0, 0], [0, 0, 0], [1, 2, 3]⟩, some ⟨[], [], []⟩, some ⟨[0, 0, 0], [0, 0, 0], [4, 5, 6]⟩],
+        6, 0, false, false⟩ : Chunk Nat) [.read 6, .hasNext, .remaining]).2 =
+      [.read 6 [some 0, some 0, some 0, some 0, some 0, some 0] [some 0, some 0, some 0, some 0, some 0, some 0]
+        [some 1, some 2, some 3, some 4, some 5, some 6], .hasNext false, .remaining 0] ∧
+    (Spec.Cursor.run (chunkRows (⟨[some ⟨[0, 0, 0], [0, 0, 0], [1, 2, 3]⟩, some ⟨[], [], []⟩,
+        some ⟨[0, 0, 0], [0, 0, 0], [4, 5, 6]⟩], 6, 0, false, false⟩ : Chunk Nat)) [.read 6, .hasNext, .remaining]).2.map encodeOut =
+      [.read 6 [some 0, some 0, some 0, some 0, some 0, some 0] [some 0, some 0, some 0, some 0, some 0, some 0]
+        [some 1, some 2, some 3, some 4, some 5, some 6], .hasNext false, .remaining 0] := by
+  decide
+
 /-- **Returned buffers are alive (F28 repaired; the lifetime clause of C01 on the model's heap log).**
 After any `read_batch` call, in any state reachable or not, every page data buffer that returned
 byte-array values point into is allocated and not freed; buffers are only released at the start of
@@ -315,16 +354,22 @@ theorem C02_returned_buffers_alive (r : Reader α) (h : HeapOk r) (k : Int) (wd 
 example : HeapOk (getColumn (⟨[some ⟨[0, 0], [0, 0], [1, 2]⟩], 2, 0, false, true⟩ : Chunk Nat)) :=
   heapOk_getColumn _
 
-/-- The fuel arguments of the model's two `while` loops are bounds, not behaviour: for every variant
+/-- The fuel arguments of the model's three `while` loops are bounds, not behaviour: for every variant
 of the code and every state, `readLoop` gives the same result for any fuel above `k - total_read`
-(`readBatch` passes `k + 1`) and `skipLoop` for any fuel above `n - total_skipped`. -/
+(`readBatch` passes `k + 1`), `skipLoop` for any fuel above `n - total_skipped`, and the page-load
+loop of `carquet_read_next_page` (F63) for any fuel above the number of pages behind the position
+(`preparePage` passes the number of pages + 1). -/
 theorem C02_model_fuel_sufficient :
     (∀ (fx : Fixes) (wd wr : Bool) (k f1 f2 : Nat) (r : Reader α) (st : LoopSt α),
       k - st.totalRead < f1 → k - st.totalRead < f2 →
       readLoop fx wd wr k f1 r st = readLoop fx wd wr k f2 r st) ∧
     (∀ (fx : Fixes) (n f1 f2 : Nat) (r : Reader α) (total : Nat), n - total < f1 → n - total < f2 →
-      skipLoop fx n f1 r total = skipLoop fx n f2 r total) :=
+      skipLoop fx n f1 r total = skipLoop fx n f2 r total) ∧
+    (∀ (fx : Fixes) (f1 f2 : Nat) (r : Reader α),
+      r.chunk.pages.length - (advance r).currentPage < f1 → r.chunk.pages.length - (advance r).currentPage < f2 →
+      prepareLoop fx f1 r = prepareLoop fx f2 r) :=
   ⟨fun fx wd wr k f1 f2 r st h1 h2 => readLoop_fuel fx wd wr k f1 f2 r st h1 h2,
-   fun fx n f1 f2 r total h1 h2 => skipLoop_fuel fx n f1 f2 r total h1 h2⟩
+   fun fx n f1 f2 r total h1 h2 => skipLoop_fuel fx n f1 f2 r total h1 h2,
+   fun fx f1 f2 r h1 h2 => prepareLoop_fuel fx f1 f2 r h1 h2⟩
 
 end Carquet.Properties.C02
